@@ -1,0 +1,11 @@
+//go:build verif
+
+package decoder
+
+import "github.com/makiuchi-d/gozxing/verifhook"
+
+// VerifSnapshot hashes the package-level tables (monitor use only: taken at
+// quiescent points before and after a concurrent workload).
+func VerifSnapshot() uint64 {
+	return verifhook.DeepHash(DataMaskValues, ALPHANUMERIC_CHARS, formatInfoMaskQR, formatInfoDecodeLookup, Mode_TERMINATOR, Mode_NUMERIC, Mode_ALPHANUMERIC, Mode_STRUCTURED_APPEND, Mode_BYTE, Mode_ECI, Mode_KANJI, Mode_FNC1_FIRST_POSITION, Mode_FNC1_SECOND_POSITION, Mode_HANZI, VERSION_DECODE_INFO, VERSIONS)
+}
